@@ -207,6 +207,13 @@ impl<'a> Gen<'a> {
         };
         ("term_keyword", json!({"type":"term","field": f, "value": v}))
       }
+      28..=29 if self.has_year => {
+        let mut q = json!({"type":"rank_feature","field":"year"});
+        if self.rng.chance(1, 2) {
+          q["modifier"] = json!(*self.rng.pick(&["log", "log1p", "sqrt", "reciprocal", "none"]));
+        }
+        ("rank_feature", q)
+      }
       28..=35 => ("match_all", json!({"type":"match_all"})),
       36..=47 => {
         let n = 1 + self.rng.below(3);
@@ -298,6 +305,32 @@ impl<'a> Gen<'a> {
     v
   }
   fn node(&mut self, depth: usize, scored: bool) -> Value {
+    // function_score / script_score wrappers (boost_mode replace, weight functions: the combined
+    // score does not depend on BM25) at any position
+    if self.rng.chance(1, 14) {
+      let inner = self.node(depth.saturating_sub(1), scored);
+      if self.rng.chance(1, 2) || !self.has_year {
+        self.kinds.insert("function_score".into());
+        let mut fns: Vec<Value> = Vec::new();
+        for _ in 0..self.rng.below(3) {
+          fns.push(json!({"type":"weight","weight": self.rng.below(4), "filter": self.filter(1)}));
+        }
+        fns.push(json!({"type":"weight","weight": self.rng.below(3)}));
+        self.rng.shuffle(&mut fns);
+        let mut q = json!({"type":"function_score","query": inner, "functions": fns, "boost_mode":"replace",
+          "score_mode": *self.rng.pick(&["sum", "multiply", "max", "min"])});
+        if self.rng.chance(4, 5) {
+          q["min_score"] = json!(self.rng.below(4));
+        }
+        if self.rng.chance(1, 4) {
+          q["max_boost"] = json!(1 + self.rng.below(3));
+        }
+        return q;
+      }
+      self.kinds.insert("script_score".into());
+      let script = if self.rng.chance(1, 4) { "_score".to_string() } else { format!("_score + 1 / (year - {})", 2018 + self.rng.below(8)) };
+      return json!({"type":"script_score","query": inner, "script": script});
+    }
     if depth == 0 || self.rng.chance(2, 5) {
       return self.leaf(scored);
     }
@@ -761,8 +794,16 @@ fn run_request(
   }
   let rxmiss = |id: &String| live_pos.get(id).map(|p| rxmiss_pos.contains(p)).unwrap_or(false);
   let below_caps = m["below_caps"] == json!(true);
+  let root_chain = m["root_chain"] == json!(true);
+  let mut drop_pos: BTreeSet<(usize, u64)> = BTreeSet::new();
+  for (si, ords) in m["custom_drop_hit"].as_array().cloned().unwrap_or_default().iter().enumerate() {
+    for o in ords.as_array().cloned().unwrap_or_default() {
+      drop_pos.insert((si, o.as_u64().unwrap_or(u64::MAX)));
+    }
+  }
+  let nested_drop = |id: &String| !root_chain && live_pos.get(id).map(|p| drop_pos.contains(p)).unwrap_or(false);
   let nqual = m["n_qualified"].as_u64().unwrap_or(0);
-  let side = json!({"expansions_complete": m["expansions_complete"], "covered": m["covered"], "below_caps": m["below_caps"], "rx_prefix_ok": m["rx_prefix_ok"], "incomplete_groups": m["incomplete_groups"]});
+  let side = json!({"expansions_complete": m["expansions_complete"], "covered": m["covered"], "below_caps": m["below_caps"], "root_chain": m["root_chain"], "rx_prefix_ok": m["rx_prefix_ok"], "incomplete_groups": m["incomplete_groups"]});
   // ---- implementation
   let mut req = request.clone();
   req["limit"] = json!(1000);
@@ -850,6 +891,13 @@ fn run_request(
         &cr,
         obs,
       );
+    } else if nested_drop(id) {
+      s.fail(
+        "score-drop.nested",
+        "a live document satisfying the query is not returned: a function_score/script_score clause below a bool/dis_max node rejects it (min_score / script without value) and the whole hit is dropped because no sibling clause contributes a score",
+        &cr,
+        obs,
+      );
     } else {
       s.fail(
         "match.missing-doc",
@@ -870,6 +918,13 @@ fn run_request(
         &cr,
         obs,
       );
+    } else if nested_drop(id) {
+      s.fail(
+        "score-drop.nested",
+        "a returned document does not satisfy the query: a required (or negated) function_score/script_score clause below a bool/dis_max node rejects it (min_score / script without value), which is ignored because a sibling clause contributes a score (or because must_not only looks at the inner query)",
+        &cr,
+        obs,
+      );
     } else {
       s.fail("match.extra-doc", "a returned document does not satisfy the query", &cr, obs);
     }
@@ -882,7 +937,7 @@ impl Prop for C07 {
     "C07"
   }
   fn rule(&self) -> &'static str {
-    "case = random schema (1-3 text fields: default or custom analyzer from tokenizer default/whitespace/unicode + lowercase/stopwords/synonyms/stemmer; optional keyword and i64 fields), 5-40 documents over a 12-word vocabulary (multi-valued fields, mixed case) in 1-4 commits with deletions and upserts, one query tree to depth 4 (term, match_all, phrase+slop, prefix, wildcard, regex, query_string, multi_match, dis_max, bool, constant_score; optional root filter, `fields`, `fuzzy`), execution bm25, limit 1000; plus up to 3 indexed-word probes (term query for a word of a live document) and one query-string parser comparison; a case is non-trivial when the documented semantics selects at least one live document and rejects at least one"
+    "case = random schema (1-3 text fields: default or custom analyzer from tokenizer default/whitespace/unicode + lowercase/stopwords/synonyms/stemmer; optional keyword and i64 fields), 5-40 documents over a 12-word vocabulary (multi-valued fields, mixed case) in 1-4 commits with deletions and upserts, one query tree to depth 4 (term, match_all, phrase+slop, prefix, wildcard, regex, query_string, multi_match, dis_max, bool, constant_score, rank_feature, function_score [boost_mode replace, weight functions, min_score/max_boost], script_score [`_score` or `_score + 1 / (year - k)`]; optional root filter, `fields`, `fuzzy`), execution bm25, limit 1000; plus up to 3 indexed-word probes (term query for a word of a live document) and one query-string parser comparison; a case is non-trivial when the documented semantics selects at least one live document and rejects at least one"
   }
   fn count(&self, tier: Tier) -> usize {
     tier.pick(400, 20000)
@@ -962,6 +1017,22 @@ impl Prop for C07 {
     };
     let commits = case["commits"].as_array().cloned().unwrap_or_default();
     let live = history_live(&commits);
+    // exploration aid (never generated): `"raw": [requests]` runs the implementation only and
+    // reports the hit ids in the notes
+    if let Some(raws) = case.get("raw").and_then(|r| r.as_array()) {
+      if let Ok(reader) = b.index.reader() {
+        for r in raws {
+          let mut req = r.clone();
+          req["limit"] = json!(1000);
+          req["execution"] = json!("bm25");
+          req["return_stored"] = json!(false);
+          let out = idx::search(&reader, &req);
+          let ids = out.ok().map(idx::hit_ids);
+          s.notes.push(format!("raw {} => {:?} {}", r, ids, if ids.is_none() { out.to_json().to_string() } else { String::new() }));
+        }
+      }
+      return;
+    }
     let request = &case["request"];
     let mut kinds = BTreeSet::new();
     query_kinds(&request["query"], &mut kinds);
@@ -1022,7 +1093,7 @@ impl Prop for C07 {
   }
   fn finish(&self, _tier: Tier, s: &mut Summary) {
     s.exhaustive = false;
-    s.notes.push("query kinds not modelled yet and therefore not generated: function_score, script_score, rank_feature (min_score / non-finite score drops), vector".into());
+    s.notes.push("not modelled and therefore not generated: function_score with boost_mode other than replace, field_value_factor/decay functions, score_mode avg (their drop decision depends on BM25 scores), arbitrary scripts, vector clauses".into());
     s.notes.push("minimum_should_match percentages are generated from {0,25,50,75,100}% (exact in f32); field-name characters in quoted phrases are ASCII".into());
     s.notes.push("phrase queries are generated on text fields only (keyword postings carry no positions, a phrase can never match a keyword field)".into());
   }
